@@ -129,6 +129,10 @@ func drawOp(t *rapid.T, label string, isValue bool, fold ...bool) rlib.Op {
 		op.Expected, op.ExpectedLabel = fm(int32(rapid.IntRange(0, 3).Draw(t, label+".exp"))), "cas"
 	case 1:
 		op.Check = fmt.Sprintf("counter=%d", rapid.IntRange(0, 3).Draw(t, label+".chk"))
+	case 5:
+		// both kinds of precondition on one call: each has to hold
+		op.Expected, op.ExpectedLabel = fm(int32(rapid.IntRange(0, 3).Draw(t, label+".exp"))), "cas"
+		op.Check = rapid.SampledFrom([]string{"counter=0", "counter=1", "counter=2", "counter<=1", "reject:ABORTED", "accept"}).Draw(t, label+".chk2")
 	case 4:
 		// a precondition that accepts several successive versions and then stops accepting: a call that re-reads after
 		// losing a race must re-evaluate it against what it finally acts on
